@@ -135,6 +135,11 @@ func (e *Encoder) callCommon(instr ssa.Instruction, cm *ssa.CallCommon, res ssa.
 				}
 			}
 		}
+		if par, ok := cm.Value.(*ssa.Parameter); ok && e.fc != nil && len(e.fc.Sites) > 0 {
+			// a call of a function-typed parameter (a callback): site `call <param>#k`
+			dsn := e.siteName("call", par.Name())
+			e.siteAsserts("call "+par.Name(), dsn, st, pc, args)
+		}
 		e.havocAll(st, "dynamic call "+cm.Value.Name())
 		v := e.freshVal("dcall", resT)
 		e.assumeWT(v, pc, st)
